@@ -16,7 +16,7 @@ type MapCodec struct {
 func (m *MapCodec) Read(r *ReadBuf, p unsafe.Pointer) error {
 	// p is a pointer to a map pointer
 	if *(*unsafe.Pointer)(p) == nil {
-		*(*unsafe.Pointer)(p) = m.New(r)
+		*(*unsafe.Pointer)(p) = unsafe.Pointer(reflect.MakeMap(m.rtype).Pointer())
 	}
 	mp := *(*unsafe.Pointer)(p)
 
@@ -95,8 +95,11 @@ func (m *MapCodec) Skip(r *ReadBuf) error {
 	return nil
 }
 
+// New returns a pointer to a nil map for Read to fill in. The map value is
+// itself a pointer, so the slot is allocated as a pointer to keep the map
+// visible to the garbage collector.
 func (m *MapCodec) New(r *ReadBuf) unsafe.Pointer {
-	return unsafe.Pointer(reflect.MakeMap(m.rtype).Pointer())
+	return r.Alloc(pointerType)
 }
 
 func (m *MapCodec) Omit(p unsafe.Pointer) bool {
